@@ -830,6 +830,88 @@ func (rn *Runner) FreePublishing() {
 	}
 }
 
+// ParamsMidLife: the collateral parameters change while items are open (seeded C08-r8). What an
+// item pays back is what was frozen in it at publication, whatever the parameters say when it
+// resolves: (a) an item published for free expires unchallenged after the publish collateral was
+// raised, next to a paid neighbour whose collateral the module holds; (b) a paid item expires after
+// the collateral was dropped to nothing and after it was raised; (c) the same through the tally
+// (challenged, verified and rejected) with both parameters changed before the verdict.
+func (rn *Runner) ParamsMidLife() {
+	rn.tag = "corpus:params-mid-life"
+	rn.NewWorldN(8, false)
+	a := func(i int) int { return rn.W.AcctIDs[i] }
+	base := PSet{Thr: "0.5", RF: "1", CP: 10 * time.Second, PP: 10 * time.Second, Rej: 12 * time.Second, Ver: 12 * time.Second}
+	with := func(pc, ic [2]int64) PSet { q := base; q.PC, q.IC = pc, ic; return q }
+	// (a) free item, then the price goes up
+	rn.SetParams(with([2]int64{0, 0}, [2]int64{0, 0}))
+	uFree, _ := rn.Publish(a(0), 4, 2)
+	_, post, _ := rn.EndBlock()
+	it := findItem(post, uFree)
+	if it == nil {
+		rn.finish()
+		return
+	}
+	ts := it.Ts
+	rn.SetParams(with([2]int64{1000, 7}, [2]int64{60, 0}))
+	rn.Publish(a(1), 4, 2) // paid neighbour: its collateral is in the module when uFree expires
+	rn.Publish(a(2), 4, 2)
+	rn.EndBlock()
+	rn.BlockAt(ns(ts + 10_000_000_000)) // uFree verified: nothing to refund
+	// (b) paid items, then the price drops to nothing / rises
+	uPaid, _ := rn.Publish(a(3), 4, 2)
+	_, post, _ = rn.EndBlock()
+	if it = findItem(post, uPaid); it != nil {
+		ts = it.Ts
+		rn.SetParams(with([2]int64{0, 0}, [2]int64{0, 0}))
+		rn.Publish(a(4), 4, 2) // free neighbour
+		rn.EndBlock()
+		rn.BlockAt(ns(ts + 10_000_000_000)) // uPaid verified: refund = what was frozen (1000, 7)
+	}
+	rn.SetParams(with([2]int64{10, 3}, [2]int64{7, 1}))
+	uSmall, _ := rn.Publish(a(5), 4, 2)
+	_, post, _ = rn.EndBlock()
+	if it = findItem(post, uSmall); it != nil {
+		ts = it.Ts
+		rn.SetParams(with([2]int64{1001, 8}, [2]int64{100, 3}))
+		rn.Publish(a(6), 4, 2)
+		rn.EndBlock()
+		rn.BlockAt(ns(ts + 10_000_000_000))
+	}
+	rn.BlockAt(ns(ts + 40_000_000_000)) // everything open expires and is pruned
+	// (c) through the tally: verified (challengers wrong) and rejected (nobody proves), parameters
+	// changed between the challenge and the verdict
+	for _, prove := range []bool{true, false} {
+		for _, first := range [][2][2]int64{{{0, 0}, {0, 0}}, {{1000, 7}, {60, 0}}} {
+			rn.SetParams(with(first[0], first[1]))
+			u, _ := rn.Publish(a(0), 4, 2)
+			rn.Publish(a(7), 4, 2) // neighbour that stays open
+			rn.Inval(a(1), u, 3)
+			rn.Inval(a(2), u, 2, 3)
+			_, post, _ = rn.EndBlock()
+			if it = findItem(post, u); it == nil {
+				continue
+			}
+			ts = it.Ts
+			if first[0][0] == 0 {
+				rn.SetParams(with([2]int64{1000, 7}, [2]int64{60, 0}))
+			} else {
+				rn.SetParams(with([2]int64{0, 0}, [2]int64{0, 0}))
+			}
+			rn.Publish(a(3), 4, 2)
+			if prove {
+				for _, v := range rn.W.ValIDs {
+					rn.ProofOK(v, v, u, 0, 1, 2, 3)
+				}
+			}
+			rn.EndBlock()
+			rn.BlockAt(ns(ts + 10_000_000_000))
+			rn.BlockAt(ns(ts + 20_000_000_000))
+			rn.BlockAt(ns(ts + 45_000_000_000))
+		}
+	}
+	rn.finish()
+}
+
 // Spelling: the same account under both spellings of its bech32 address (all lower / all upper:
 // same bytes, same signer) in every address-typed field of every x/da message: a second challenge,
 // a second proof, deputy registration and unregistration under the other spelling, publisher and
@@ -1351,6 +1433,7 @@ func Run(prof Profile, seed int64, n int, outDir string) error {
 	rn.Corpus()
 	rn.SameBlock()
 	rn.FreePublishing()
+	rn.ParamsMidLife()
 	rn.Spelling()
 	rn.OddCollateral()
 	rn.RejectShares()
